@@ -7,8 +7,10 @@ CONSTANTS
   Strips = {FALSE}
   Shifts = {0, 1}
   Mods = {"all", "first"}
-  Probs = {"P1", "P2", "P3", "P4", "P5", "P6"}
+  Probs = {"P1", "P2", "P3", "P4", "P5", "P6", "P7"}
   Pads = {0}
   Padfs = {0}
   Showdups = {FALSE}
+  FaultOps = {}
+  FaultKs = {}
 CHECK_DEADLOCK FALSE
